@@ -44,7 +44,9 @@ func applicable(s scenario) bool {
 	}
 	if s.State == "outbound-traffic-flowing" {
 		// a silent client the broker keeps forwarding QoS 0 traffic to: only keep-alive can end it
-		return s.Cause == "keepalive-expiry"
+		// ... or its own DISCONNECT, over a connection whose close takes 15 ms
+		// while the broker keeps forwarding to it
+		return s.Cause == "keepalive-expiry" || s.Cause == "disconnect"
 	}
 	if s.State == "blocked-on-token" {
 		// the processor does not read while it waits for a token
@@ -151,6 +153,9 @@ func run(r *h.Run, sc scenario) {
 			fc.AddFault(bh.Fault{Dir: "send", K: 1, When: "before"})
 		case "connack-send-fails-after":
 			fc.AddFault(bh.Fault{Dir: "send", K: 1, When: "after"})
+		}
+		if sc.Cause == "disconnect" && sc.State == "outbound-traffic-flowing" {
+			fc.CloseDelay = 15 * time.Millisecond
 		}
 	})
 	in.ClientMaximumKeepAlive = 0
@@ -290,7 +295,7 @@ func run(r *h.Run, sc scenario) {
 		}
 	}
 	// ---- wait for the victim's broker-side client to be fully closed
-	if sc.State == "outbound-traffic-flowing" {
+	if sc.State == "outbound-traffic-flowing" && sc.Cause == "keepalive-expiry" {
 		// Decided in packets, not in waiting time: the broker has written 600
 		// PUBLISH packets to the silent victim (the pumps need more than 1.5 s,
 		// five read timeouts, to produce them) and its client is still not
@@ -659,7 +664,7 @@ func stalledVictim(r *h.Run, idx int) {
 
 func TestCheck(t *testing.T) {
 	r := h.New("C12", "fault_enumeration")
-	r.Rule("termination cause {DISCONNECT, DISCONNECT behind a PINGREQ from a peer that vanishes at once (buffered writes: the flush at close fails), peer EOF, corrupt frame, second CONNECT, CONNACK/SUBACK/PINGRESP from the client, oversized packet, keep-alive expiry, takeover by the same id (clean/unclean), MemoryBackend.Close, token-timeout kill, Backend.Publish/Subscribe failing, rejected authentication, failing Setup, CONNACK send failing before/after} x protocol state {idle, inbound QoS 1 done, inbound QoS 2 open, outbound delivery unacknowledged, blocked on a publish token} x will QoS 0-2 x retain; oracle: number of Backend.Publish calls with the will's content on behalf of the victim after its Closed() fired = 1 iff Setup succeeded and the broker did not log a received DISCONNECT, content unchanged; online, offline-persistent and late (retained) observers consistent with it. Stalled-victim part: a victim subscribed to its own retained will's topic with full window and queue dies; the will is handed to the backend once and a later subscriber gets it. Back-pressure part: an online observer with window 1 and queue 1, both full, when a victim with a QoS 1/2 will loses its connection: after the observer acknowledges it must get the will exactly once. Non-trivial = (cause,state) pairs in which the client had been accepted; distinct by scenario")
+	r.Rule("termination cause {DISCONNECT, DISCONNECT behind a PINGREQ from a peer that vanishes at once (buffered writes: the flush at close fails), peer EOF, corrupt frame, second CONNECT, CONNACK/SUBACK/PINGRESP from the client, oversized packet, keep-alive expiry, takeover by the same id (clean/unclean), MemoryBackend.Close, token-timeout kill, Backend.Publish/Subscribe failing, rejected authentication, failing Setup, CONNACK send failing before/after} x protocol state {idle, inbound QoS 1 done, inbound QoS 2 open, outbound delivery unacknowledged, blocked on a publish token, QoS 0 traffic flowing towards the client (keep-alive expiry, and DISCONNECT over a connection whose close takes 15 ms)} x will QoS 0-2 x retain; oracle: number of Backend.Publish calls with the will's content on behalf of the victim after its Closed() fired = 1 iff Setup succeeded and the broker did not log a received DISCONNECT, content unchanged; online, offline-persistent and late (retained) observers consistent with it. Stalled-victim part: a victim subscribed to its own retained will's topic with full window and queue dies; the will is handed to the backend once and a later subscriber gets it. Back-pressure part: an online observer with window 1 and queue 1, both full, when a victim with a QoS 1/2 will loses its connection: after the observer acknowledges it must get the will exactly once. Non-trivial = (cause,state) pairs in which the client had been accepted; distinct by scenario")
 	r.Assume("DISCONNECT racing with another cause is judged by what the broker logged as received")
 	r.Exhaustive()
 	var list []scenario
